@@ -12,8 +12,8 @@ import (
 const lossEps = 1e-12
 
 func clipRef(v, l, u float64) float64 {
-	lo := vrt.IteF(v < u, v, u)
-	return vrt.IteF(lo > l, lo, l)
+	lo := vrt.IteF(v <= u, v, u)
+	return vrt.IteF(lo <= l, l, lo)
 }
 
 func computeLoss(name string, yp, yt T) (T, error) {
@@ -43,14 +43,18 @@ func refLoss(name string, p, t []float64, B, C int) float64 {
 		for k := range p {
 			tc := clipRef(t[k], 0, 1)
 			pc := clipRef(p[k], lossEps, 1-lossEps)
-			s += tc*math.Log(pc) + (1-tc)*math.Log(1-pc)
+			a, b := tc*math.Log(pc), (1-tc)*math.Log(1-pc)
+			vrt.Lemma("BCE summands are non-positive", vrt.And(a <= 0, b <= 0))
+			s += a + b
 		}
 		return -s / float64(B)
 	case "CE":
 		for b := 0; b < B; b++ {
 			for c := 0; c < C; c++ {
 				k := b*C + c
-				s += clipRef(t[k], 0, 1) * math.Log(clipRef(p[k], lossEps, 1-lossEps))
+				a := clipRef(t[k], 0, 1) * math.Log(clipRef(p[k], lossEps, 1-lossEps))
+				vrt.Lemma("CE summands are non-positive", a <= 0)
+				s += a
 			}
 		}
 		return -s / float64(B)
